@@ -21,6 +21,7 @@ func init() {
 	register(&Scenario{Prop: "C06", Name: "registry-enum", Run: runRegistryEnum})
 	register(&Scenario{Prop: "C07", Name: "registry-policy", Run: func(rc *RunCtx) { runRegistrySeq(rc, "C07") }})
 	register(&Scenario{Prop: "C20", Name: "registry-reopen", Run: func(rc *RunCtx) { runRegistrySeq(rc, "C20") }})
+	register(&Scenario{Prop: "C20", Name: "reopen-conc", Run: runReopenConc})
 }
 
 type regOp struct {
@@ -727,4 +728,117 @@ func relevant(prop, rule string) bool {
 		return rule == "reopen-error" || rule == "reopen-missed"
 	}
 	return true
+}
+
+// ---- C20 with overlapping Reopen calls ------------------------------------------------
+//
+// Every single Broker.Reopen call must itself reach every node of every
+// registered pipeline (and carry a node's failure), also when another Reopen
+// is in flight. Node Reopen invocations are attributed to the calling task.
+
+type reopenNode struct {
+	label string
+	kind  el.NodeType
+	fail  error
+	by    []int // ids of the tasks (and their descendants' roots) that invoked Reopen
+}
+
+func (n *reopenNode) Type() el.NodeType { return n.kind }
+func (n *reopenNode) Process(ctx context.Context, e *el.Event) (*el.Event, error) {
+	if n.kind == el.NodeTypeSink {
+		return nil, nil
+	}
+	return e, nil
+}
+func (n *reopenNode) Reopen() error {
+	simrt.Yield("reopen-node:enter")
+	n.by = append(n.by, simrt.TaskID())
+	simrt.Yield("reopen-node:exit")
+	return n.fail
+}
+
+func runReopenConc(rc *RunCtx) {
+	tp := rc.Tape
+	sim := rc.Sim
+	b, _ := el.NewBroker()
+	var nodes []*reopenNode
+	mk := func(id string, k el.NodeType) *reopenNode {
+		n := &reopenNode{label: id, kind: k}
+		nodes = append(nodes, n)
+		b.RegisterNode(el.NodeID(id), n)
+		return n
+	}
+	nPipes := 1 + tp.Choose(3, "npipes")
+	var listed []*reopenNode
+	var desc []string
+	for p := 0; p < nPipes; p++ {
+		typ := []string{"ta", "tb"}[tp.Choose(2, "type")]
+		f := mk(fmt.Sprintf("f%d", p), el.NodeTypeFilter)
+		m := mk(fmt.Sprintf("m%d", p), el.NodeTypeFormatter)
+		k := mk(fmt.Sprintf("k%d", p), el.NodeTypeSink)
+		ids := []el.NodeID{el.NodeID(f.label), el.NodeID(m.label), el.NodeID(k.label)}
+		if err := b.RegisterPipeline(el.Pipeline{PipelineID: el.PipelineID(fmt.Sprintf("p%d", p)), EventType: el.EventType(typ), NodeIDs: ids}); err != nil {
+			rc.Failf("C20.setup", "", "%v", err)
+			return
+		}
+		listed = append(listed, f, m, k)
+		desc = append(desc, fmt.Sprintf("%s/p%d", typ, p))
+	}
+	var failing *reopenNode
+	if tp.Choose(3, "failnode") == 0 {
+		failing = listed[tp.Choose(len(listed), "which")]
+		failing.fail = fmt.Errorf("injected reopen error of %s", failing.label)
+	}
+	nCallers := 2 + tp.Choose(2, "ncallers")
+	type rcall struct {
+		task int
+		err  error
+		done bool
+	}
+	calls := make([]*rcall, nCallers)
+	for c := 0; c < nCallers; c++ {
+		c := c
+		calls[c] = &rcall{}
+		sim.Spawn(fmt.Sprintf("reopener%d", c), func() {
+			simrt.Yield("reopener:start")
+			calls[c].task = simrt.TaskID()
+			calls[c].err = b.Reopen(context.Background())
+			calls[c].done = true
+		})
+	}
+	sim.Run(nil)
+	rc.NonTrivial = true
+	rc.Desc = map[string]interface{}{"pipelines": desc, "callers": nCallers, "failing": failing != nil}
+	if sim.Stuck {
+		rc.Failf("C20.stuck", stuckClass(sim), "concurrent Reopen did not finish: %s", strings.Join(sim.StuckInfo, "; "))
+		return
+	}
+	for i, c := range calls {
+		if !c.done {
+			continue
+		}
+		if failing == nil {
+			if c.err != nil {
+				rc.Failf("C20.reopen-error", "spurious-conc", "Reopen call %d returned %v although no node failed", i, c.err)
+			}
+			for _, n := range listed {
+				mine := false
+				for _, t := range n.by {
+					if sim.Descendant(t, c.task) {
+						mine = true
+					}
+				}
+				if !mine {
+					rc.Failf("C20.reopen-missed", "overlapping-calls", "Reopen call %d returned nil but did not itself reopen node %s (another Reopen call was in flight)", i, n.label)
+					return
+				}
+			}
+		} else if c.err == nil {
+			// the failing node was certainly registered for the whole call
+			rc.Failf("C20.reopen-error", "swallowed-conc", "node %s fails in Reopen but Reopen call %d returned nil", failing.label, i)
+			return
+		} else if !errors.Is(c.err, failing.fail) && !strings.Contains(c.err.Error(), failing.fail.Error()) {
+			rc.Failf("C20.reopen-error", "not-carried-conc", "Reopen call %d returned %q which does not carry %q", i, c.err, failing.fail)
+		}
+	}
 }
